@@ -54,8 +54,8 @@ theorem copy_multi {c : Circuit} {name : Name} (hc : LintClean c)
     rw [List.length_append, List.length_map]
     omega
 
-theorem MView.clean (V : MView c0 c1 sp ep m) (h0 : LintClean c0) (h1 : LintClean c1)
-    (hsp : sp.Nodup) (hep : ep.Nodup) (hne : ep ≠ [])
+theorem MView.clean' (V : MView c0 c1 sp ep m) (h0 : LintClean c0) (h1 : LintClean c1)
+    (hsp : sp.Nodup) (hep : ep.Nodup)
     (hin0 : ∀ s ∈ sp, s ∈ c0.inputs) (hin1 : ∀ s ∈ sp, s ∈ c1.inputs)
     (hx0 : ∀ p ∈ c0.nodes, p.2.ty ≠ some "x") (hx1 : ∀ p ∈ c1.nodes, p.2.ty ≠ some "x") : C01.Clean m := by
   refine ⟨V.wf.nodup, ?_, ?_, ?_⟩
@@ -65,7 +65,7 @@ theorem MView.clean (V : MView c0 c1 sp ep m) (h0 : LintClean c0) (h1 : LintClea
     · exact copy_typed h1 hx1 hq
     · exact ⟨"input", rfl, by decide, by decide⟩
     · refine ⟨satTy ep, rfl, ?_⟩
-      rcases satTy_cases ep with h | h <;> rw [h] <;> exact ⟨by decide, by decide⟩
+      rcases satTy_cases ep with h | h | h <;> rw [h] <;> exact ⟨by decide, by decide⟩
     · exact ⟨"xor", rfl, by decide, by decide⟩
   · intro n t hty hm
     obtain ⟨p, hp, rfl, ht⟩ := Tseitin.mem_of_ty m n t hty
@@ -79,12 +79,12 @@ theorem MView.clean (V : MView c0 c1 sp ep m) (h0 : LintClean c0) (h1 : LintClea
     · simp only [satNode] at ht ⊢
       injection ht with ht
       rw [V.fanin_sat, List.length_map]
-      unfold satTy at ht
-      by_cases hl : ep.length > 1
-      · rw [if_pos hl] at ht
-        subst ht
-        exact absurd hm (by decide)
-      · omega
+      cases ep with
+      | nil => rw [satTy_nil] at ht; subst ht; exact absurd hm (by decide)
+      | cons a l =>
+        cases l with
+        | nil => exact Nat.le_refl _
+        | cons b l => rw [satTy_two] at ht; subst ht; exact absurd hm (by decide)
     · simp only [] at ht
       injection ht with ht
       subst ht
@@ -101,11 +101,20 @@ theorem MView.clean (V : MView c0 c1 sp ep m) (h0 : LintClean c0) (h1 : LintClea
     · simp only [satNode] at ht ⊢
       rw [V.fanin_sat, List.length_map]
       cases ep with
-      | nil => exact absurd rfl hne
+      | nil =>
+        injection ht with ht
+        rw [satTy_nil] at ht; subst ht; exact absurd hm (by decide)
       | cons a l => simp
     · simp only [] at ht ⊢
       rw [V.fanin_dif hep he]
       simp
+
+/-- (old signature, kept for the users that have `ep ≠ []` at hand) -/
+theorem MView.clean (V : MView c0 c1 sp ep m) (h0 : LintClean c0) (h1 : LintClean c1)
+    (hsp : sp.Nodup) (hep : ep.Nodup) (hne : ep ≠ [])
+    (hin0 : ∀ s ∈ sp, s ∈ c0.inputs) (hin1 : ∀ s ∈ sp, s ∈ c1.inputs)
+    (hx0 : ∀ p ∈ c0.nodes, p.2.ty ≠ some "x") (hx1 : ∀ p ∈ c1.nodes, p.2.ty ≠ some "x") : C01.Clean m :=
+  V.clean' h0 h1 hsp hep hin0 hin1 hx0 hx1
 
 end view
 
